@@ -208,6 +208,29 @@ def check_constraint(c, rep=None, want=None, capture=True):
                     fails[j] = (fails[j][0] + ":after-parameter-set", fails[j][1])
             except Exception as ex:
                 fails.add("exception:solve-after-parameter-set:" + type(ex).__name__, method=method, msg=str(ex)[:200])
+        if not params and not fails:
+            # the objective of the solved problem is REPLACED by one over another variable set of the same size (A0
+            # leaves, zzz joins: every constraint column shifts by one): the relation handed over is still the user's
+            try:
+                names2 = sorted([nm for nm in names if nm != "A0"] + ["zzz"], key=natural_key)
+                obj2 = ("c", 1.0)
+                for nm in names2:
+                    obj2 = ("bin", "+", obj2, ("bin", "**", ("bin", "-", ("var", nm), ("c", 0.5)), ("c", 2)))
+                pr2 = PR.prob("min", obj2, (c,), (), ())
+                P_.minimize(b2.build(obj2))
+                with Seam(script=[lambda call: result(np.zeros(n), fun=0.0)] * 2, passthrough=False) as s3:
+                    P_.solve(method=method)
+                if [v.name for v in P_.variables] != names2:
+                    fails.add("variable-order:after-objective-replacement", got=[v.name for v in P_.variables], expected=names2)
+                else:
+                    before = len(fails)
+                    CAP.check_constraints(s3.calls[0].kw, pr2, names2, fails, rep, params)
+                    for j in range(before, len(fails)):
+                        fails[j] = (fails[j][0] + ":after-objective-replacement", fails[j][1])
+                if rep:
+                    rep.transitions += 2
+            except Exception as ex:
+                fails.add("exception:solve-after-objective-replacement:" + type(ex).__name__, method=method, msg=str(ex)[:200])
     return fails
 
 
